@@ -4,7 +4,7 @@ EXTENDS Output, Json, IOUtils
 \* (3) interleavings of concurrent renders
 Obs == IF IOEnv.OBS = "" THEN <<>> ELSE ndJsonDeserialize(IOEnv.OBS)
 WriteSeqs == UNION {[1..n -> 0..2] : n \in 0..3}
-Fails == {[m |-> mm, k |-> kk] : mm \in {"call", "budget"}, kk \in 0..7}
+Fails == {[m |-> mm, k |-> kk] : mm \in {"call", "budget", "chunk"}, kk \in 0..7}
 Threads == {1, 2, 3}
 Prog == <<"read", "init", "write", "read", "write">>      \* per-thread program: registry reads, lazy-static use, private writes
 VARIABLES mode, ws, f, i, pc, static, out
